@@ -13,6 +13,8 @@ TRUSTED_BASE = [
     'Python semantics assumed by the encoding: DESIGN.md 2.2 (value semantics of containers under the alias discipline, arbitrary dict/set iteration order, unbounded ints)',
     'IEEE-754 binary64 round-to-nearest and CPython round(x, 4) as over-approximated in pyvc/fp.py',
     'domain bound MAXTOK = 2^31 on token counts and table lengths',
+    'CPython builtins as modelled in pyvc/natives.py and pyvc/natives_sort.py (ASSUMED): dict / set / list operations, list.index, '
+    'dict.items() enumerates every key once, sorted() / list.sort() return a stable key-ordered permutation, zip pairs up to the shorter length',
 ]
 
 ASSUMPTIONS = [
@@ -37,8 +39,8 @@ PANDAS = ('pandas (ASSUMED, pyvc/pandas_model.py): DataFrame abstraction (column
           'df[list], df[mask], dropna, itertuples, unique, isnull, DataFrame(rows, columns=), concat, set_index')
 PSM = ('py_stringmatching (ASSUMED, contracts/externals.py): tokenize is deterministic and duplicate-free in set mode; '
        'get_raw_score returns simval_M(|A&B|, |A|, |B|) with the float formula of the installed version')
-LEMMA_INJ = ('lemma inj_image (pure mathematics, ASSUMED, not machine-checked yet): an injective rank map defined on all '
-             'tokens preserves set sizes and intersection sizes')
+LEMMA_INJ = ('lemma inj_image (pure mathematics, ASSUMED, not machine-checked): an injective rank map defined on all '
+             'tokens preserves set sizes and intersection sizes; ranks(o, tokens) names the (pure) result of order_using_token_ordering')
 
 PROPS['C17'] = dict(functions=['py_stringsimjoin.profiler.profiler.profile_table_for_join',
                               VAL + 'validate_input_table', VAL + 'validate_attr'],
